@@ -13,25 +13,64 @@ type AppStats struct {
 	Failed, Succeeded      int
 	ValUpdateBlocks        int
 	Errors                 []string
+	Corpus                 []string
+	ForkRuns, ForkDeleted  int
+	ForkDiffs              []string
 	DistinctNontrivial     int
 	Samples                []string
 }
 
 // GenerateCases produces n histories and writes them as one Coq case file
-func GenerateCases(seed int64, n, blocks int, outPath, scratch, jsonPath, profile string) (*AppStats, error) {
-	st := &AppStats{ByNote: map[string]int{}}
-	var sb strings.Builder
-	ResetSyms()
+func GenerateCases(seed int64, n, blocks int, outPath, scratch, jsonPath, profile, evals string) (*AppStats, error) {
 	var hs []*History
+	var corpus []string
+	if strings.Contains(profile, "corpus") {
+		pre, names, err := CorpusHistories(scratch, nil)
+		if err != nil {
+			return nil, fmt.Errorf("corpus: %v", err)
+		}
+		hs, corpus = append(hs, pre...), names
+	}
 	for i := 0; i < n; i++ {
 		h, err := Generate(seed*100000+int64(i), blocks, scratch, profile)
 		if err != nil {
 			return nil, fmt.Errorf("history %d: %v", i, err)
 		}
+		hs = append(hs, h)
+		_ = os.RemoveAll(fmt.Sprintf("%s/gen-%d", scratch, h.Seed))
+	}
+	st, err := writeCases(hs, outPath, jsonPath, evals)
+	if st != nil {
+		st.Corpus = corpus
+	}
+	if err == nil && strings.Contains(profile, "forkdelete") {
+		for i, h := range hs {
+			if h.Err != "" {
+				continue
+			}
+			diffs, deleted, ferr := ForkDelete(h, scratch, fmt.Sprintf("fork-%d", i))
+			if ferr != nil {
+				return nil, ferr
+			}
+			st.ForkDeleted += deleted
+			st.ForkRuns++
+			for _, d := range diffs {
+				st.ForkDiffs = append(st.ForkDiffs, fmt.Sprintf("history %d: %s", i, d))
+			}
+		}
+	}
+	return st, err
+}
+
+// writeCases renders histories as one Coq case file (+ optional JSON copy) and aggregates statistics
+func writeCases(hs []*History, outPath, jsonPath, evals string) (*AppStats, error) {
+	st := &AppStats{ByNote: map[string]int{}}
+	var sb strings.Builder
+	ResetSyms()
+	for i, h := range hs {
 		if h.Err != "" {
 			st.Errors = append(st.Errors, fmt.Sprintf("history %d (seed %d): %s", i, h.Seed, h.Err))
 		}
-		hs = append(hs, h)
 		if i > 0 {
 			sb.WriteString(";\n")
 		}
@@ -49,8 +88,6 @@ func GenerateCases(seed int64, n, blocks int, outPath, scratch, jsonPath, profil
 					st.Failed += v
 				}
 			}
-		}
-		for k, v := range h.Stats {
 			if strings.HasPrefix(k, "ev:") || strings.HasPrefix(k, "why:") {
 				st.ByNote[k] += v
 			}
@@ -62,17 +99,24 @@ func GenerateCases(seed int64, n, blocks int, outPath, scratch, jsonPath, profil
 		if nontrivial {
 			st.DistinctNontrivial++
 		}
-		_ = os.RemoveAll(fmt.Sprintf("%s/gen-%d", scratch, h.Seed))
 	}
 	sb.WriteString("\n].\n")
-	sb.WriteString("Definition bad := Eval vm_compute in check_acases cases.\nPrint bad.\n")
+	if evals == "" {
+		evals = "bad=check_acases"
+	}
+	for _, e := range strings.Split(evals, "|") {
+		kv := strings.SplitN(e, "=", 2)
+		if len(kv) == 2 {
+			sb.WriteString(fmt.Sprintf("Definition %s := Eval vm_compute in %s cases.\nPrint %s.\n", kv[0], kv[1], kv[0]))
+		}
+	}
 	if jsonPath != "" {
 		bz, _ := json.Marshal(hs)
 		if err := os.WriteFile(jsonPath, bz, 0o644); err != nil {
 			return nil, err
 		}
 	}
-	head := "From Rigo Require Import Base.\nFrom stdpp Require Import gmap.\nFrom Rigo Require Import Spec AppRun.\nLocal Open Scope Z_scope.\n" +
+	head := "From Rigo Require Import Base.\nFrom stdpp Require Import gmap.\nFrom Rigo Require Import Spec AppRun Predicates.\nLocal Open Scope Z_scope.\n" +
 		SymDefs() + "Definition cases : list acase := [\n"
 	return st, os.WriteFile(outPath, []byte(head+sb.String()), 0o644)
 }
